@@ -453,7 +453,10 @@ def index(eng, a, sl, st, node):
         else:
             v = eng.ev(p, st)
             va = as_arr_or_none(v)
-            if va is not None and (va.ndim >= 1):
+            if va is not None and va.ndim == 1 and va.dtype == "num" and is_lit(va.shape[0], 1):
+                # a 1-element integer index array is identified with the scalar index (T2)
+                kinds.append(("int", _norm_index(_toint(va.elem(I0)), d)))
+            elif va is not None and (va.ndim >= 1):
                 kinds.append(("arr", va))
             elif v.py is not None and v.py[0] == "slice":
                 return None
@@ -481,6 +484,8 @@ def index(eng, a, sl, st, node):
 
             r = Arr(1, (n,), el, a.dtype)
             r.fsel = (m, n, si)
+            r.src = a
+            r.aligned = (m, lambda *i: a.elem(*i))
             return Val.of_arr(r)
         return None
     if a.ndim == 2 and kinds[0][0] == "slice" and kinds[1][0] == "arr" and kinds[1][1].dtype == "bool" and kinds[1][1].ndim == 1:
@@ -555,7 +560,9 @@ def store(eng, a, sl, v, st, node):
         else:
             pv = eng.ev(p, st)
             pa = as_arr_or_none(pv)
-            if pa is not None and pa.ndim >= 1:
+            if pa is not None and pa.ndim == 1 and pa.dtype == "num" and is_lit(pa.shape[0], 1):
+                kinds.append(("int", _norm_index(_toint(pa.elem(I0)), d)))
+            elif pa is not None and pa.ndim >= 1:
                 kinds.append(("arr", pa))
             else:
                 kinds.append(("int", _norm_index(eng.as_int(pv), d)))
@@ -769,6 +776,12 @@ def uf1(name, facts=None):
             r = n_uf(name, x)
             if facts:
                 facts(x, r)
+            if x.t is not None:
+                # IEEE special values: log(+inf)=+inf, log(-inf)=nan, exp(+inf)=+inf, exp(-inf)=0, sqrt(+inf)=+inf, f(nan)=nan
+                t = x.t
+                if name == "exp":
+                    return N(z3.If(t == NINF, z3.RealVal(0), r.r), z3.If(t == PINF, z3.IntVal(PINF), z3.If(t == NAN, z3.IntVal(NAN), z3.IntVal(FIN))))
+                return N(r.r, z3.If(t == PINF, z3.IntVal(PINF), z3.If(t == FIN, z3.IntVal(FIN), z3.IntVal(NAN))))
             return r
 
         return lift1(f, args[0])
@@ -784,22 +797,52 @@ def _sqrt_facts(x, r):
     c.add_fact(z3.Implies(xr == 0, r.r == 0), key=k + ("z",))
 
 
+def _mono_pairs(kind, xr, rr, increasing_domain):
+    """Ground monotonicity / functionality instances against every earlier application of the same function."""
+    c = ctx()
+    if c.binders:
+        return
+    lst = getattr(c, "mono_" + kind, None)
+    if lst is None:
+        lst = []
+        setattr(c, "mono_" + kind, lst)
+    for (x2, r2) in lst:
+        dom = increasing_domain(xr, x2)
+        c.add_fact(z3.Implies(z3.And(dom, xr < x2), rr < r2))
+        c.add_fact(z3.Implies(z3.And(dom, x2 < xr), r2 < rr))
+        c.add_fact(z3.Implies(xr == x2, rr == r2))
+    if len(lst) < 40:
+        lst.append((xr, rr))
+
+
 def _exp_facts(x, r):
     c = ctx()
-    c.add_fact(r.r > 0, key=("exp", str(x.r)))
+    xr = _real(x.r)
+    key = ("exp", str(xr))
+    if key in c.fact_keys:
+        return
+    c.fact_keys.add(key)
+    c.add_fact(r.r > 0)
     lg = c.uf("log", z3.RealSort(), z3.RealSort())
-    c.add_fact(lg(r.r) == _real(x.r), key=("explog", str(x.r)))
+    c.add_fact(lg(r.r) == xr)
+    _mono_pairs("exp", xr, r.r, lambda a, b: z3.BoolVal(True))
 
 
 def _log_facts(x, r):
     c = ctx()
     ex = c.uf("exp", z3.RealSort(), z3.RealSort())
     xr = _real(x.r)
-    c.add_fact(z3.Implies(xr > 0, ex(r.r) == xr), key=("logexp", str(xr)))
+    key = ("logexp", str(xr))
+    if key in c.fact_keys:
+        return
+    c.fact_keys.add(key)
+    c.add_fact(z3.Implies(xr > 0, ex(r.r) == xr))
     c.log_used = True
+    _mono_pairs("log", xr, r.r, lambda a, b: z3.And(a > 0, b > 0))
 
 
 def explog_axioms():
+    return []  # monotonicity is instantiated on ground term pairs (see _mono_pairs); inverse facts per term
     c = ctx()
     lg = c.uf("log", z3.RealSort(), z3.RealSort())
     ex = c.uf("exp", z3.RealSort(), z3.RealSort())
@@ -1049,6 +1092,14 @@ def np_std(eng, st, args, kw, node):
     if _axis(kw, args, 1) is not None:
         return opaque("std")
     return stat_uf("std", args[0])
+
+
+def np_finfo(eng, st, args, kw, node):
+    """np.finfo(np.float64): only .max is used: an (unspecified) positive constant FMAX."""
+    ctx().types.setdefault("$finfo.max", {"sort": "real", "nonnull": True})
+    fm = z3.Real("$finfo.max")
+    ctx().add_fact(fm > 1, key=("finfo",))
+    return Val(ref="$finfo")
 
 
 def np_argmin(eng, st, args, kw, node, is_min=True):
@@ -1394,7 +1445,7 @@ NPFUNCS = {
     "concatenate": np_concatenate, "argmin": np_argmin, "argmax": np_argmax, "min": np_min, "max": np_max,
     "amin": np_min, "amax": np_max, "sum": np_sum, "unique": np_unique, "sort": np_sort, "argsort": np_argsort,
     "array": np_array, "asarray": np_array, "reshape": np_reshape, "isscalar": np_isscalar, "isreal": np_isreal,
-    "mean": np_mean, "std": np_std, "pad": np_pad, "tril": np_tril, "eye": np_eye, "transpose": np_transpose, "mod": np_mod, "spacing": np_spacing, "delete": np_delete, "squeeze": np_squeeze, "argwhere": np_argwhere,
+    "finfo": np_finfo, "mean": np_mean, "std": np_std, "pad": np_pad, "tril": np_tril, "eye": np_eye, "transpose": np_transpose, "mod": np_mod, "spacing": np_spacing, "delete": np_delete, "squeeze": np_squeeze, "argwhere": np_argwhere,
     "math.ceil": np_ceil, "math.floor": np_floor, "math.sqrt": uf1("sqrt", _sqrt_facts), "math.log": uf1("log", _log_facts),
 }
 
